@@ -211,7 +211,10 @@ Section StreamLemmas.
   Qed.
 
   Lemma npart_le data : (npart data <= length data)%nat.
-  Proof. unfold n_particles. apply filter_length_le. Qed.
+  Proof.
+    clear mkst dec. unfold n_particles. induction data as [|r t IH]; cbn [filter length]; [lia|].
+    destruct (negb (is_hdr r)); cbn [length]; lia.
+  Qed.
 
   Lemma headers_yield_nothing st data :
     forallb is_hdr data = true -> parts st data = [].
@@ -318,7 +321,7 @@ Proof.
       - split; reflexivity.
       - split; [reflexivity|]. unfold len. rewrite Hl. reflexivity. }
     destruct (G ps_rows ps Lp Hp) as [G1 G2]. destruct (G vs_rows vs Lv Hv) as [G3 G4].
-    rewrite G1, G2, G3, G4. reflexivity.
+    rewrite G2, G4, G1, G3. reflexivity.
   - intros b Hb. cbn [Nat.add]. destruct ps as [| |b0]; cbn [sel_buf] in Hb; inversion Hb; subst.
     + unfold len. rewrite Nat2Z.id, repeat_length. exact Hle.
     + exact Hp.
